@@ -35,7 +35,7 @@ import c20_worker as W  # noqa: E402   (name pools + specification predicates on
 
 RULE = ('schedules: each seeded API-built design (gen_designs + renaming through the public name property from pools '
         'of plain names / names needing Verilog sanitising / leading-zero families x1,x01,x001 / two write ports '
-        'sharing one enable) is rebuilt in fresh subprocesses under PYTHONHASHSEED x allocation-noise configurations; '
+        'sharing one enable; plus designs built by input_from_blif (generated BLIF with 2-3 multi-bit vectors, latches) and input_from_iscas_bench) is rebuilt in fresh subprocesses under PYTHONHASHSEED x allocation-noise configurations; '
         'sha256 of output_to_verilog, output_verilog_testbench, print_vcd, print_trace text and of the Simulation and '
         'FastSimulation traces compared across configurations (address-space randomisation off, so a configuration replays); 9 pass pipelines compared by Output traces; 23 export/analysis calls '
         'checked read-only by fingerprint + Output trace under Simulation and FastSimulation (ROM-only designs with list / dict / function romdata: every ROM address swept, output_to_firrtl called with rom_blocks=); designs of class samename carry distinct memories with EQUAL names (build_new_roms clones, duplicate MemBlock / RomBlock names). A case = (design, configuration, exporter|pipeline|call); '
@@ -139,7 +139,8 @@ def gen_names(rng, n):
     out = []
     specials = ['', 'clk', 'rst', 'x', '0', '00', '007', '7', 'a0', 'a00', 'tmp4', 'tmp18', 'tmp018',
                 'x' * 1024, 'y' * 1025, 'wire', 'reg', 'module', 'always', 'xor', 'Wire', 'abc\n', 'ab c\n',
-                'abc\n\n', '\n', '_', '$', '_$', '9z', 'const_0_3\'d5', 'a1b2', 'a01b2', 'a1b02', 'a1b2c']
+                'abc\n\n', '\n', '_', '$', '_$', '9z', 'const_0_3\'d5', 'a1b2', 'a01b2', 'a1b02', 'a1b2c',
+                'data', 'DATA', 'Data', 'q1', 'Q1', 'q01', 'Q01', 'x_7a', 'X_7A', 'x_07A']
     out.extend(specials)
     reserved = sorted(W._RESERVED)
     while len(out) < n:
@@ -193,7 +194,12 @@ def tie_names(ctx):
             lst = list(base)
             for b in base:
                 for _ in range(r.randint(0, 2)):
-                    lst.append(re.sub(r'\d+', lambda m: '0' * r.randint(0, 2) + m.group(0), b))
+                    v = re.sub(r'\d+', lambda m: '0' * r.randint(0, 2) + m.group(0), b)
+                    if r.random() < 0.5:     # differ in letter case (only, or together with leading zeros)
+                        v = r.choice([v.upper(), v.lower(), v.swapcase(), v.capitalize()])
+                    lst.append(v)
+                if r.random() < 0.3:
+                    lst.append(b.swapcase())
         else:
             lst = r.sample(short, k)
         lst = list(dict.fromkeys(lst))
@@ -268,7 +274,10 @@ def tie_names(ctx):
             if a != b:
                 fn = '_name_sorted' if kind == 'natsort' else 'sorted(key=_trace_sort_key)'
                 ties = len({W.strip_zeros(x) for x in lst}) < len(lst)
-                ctx.spec_violation('nondeterministic:%s%s' % (fn, ':natural-key-tie' if ties else ''),
+                if not ties and len({W.strip_zeros(x).lower() for x in lst}) < len(lst):
+                    ties = 'case'
+                ctx.spec_violation('nondeterministic:%s%s' % (fn, ':case-tie' if ties == 'case' else
+                                                               (':natural-key-tie' if ties else '')),
                                    '%s of one collection of names presented in two orders gives two results%s: %r vs %r'
                                    % (fn, ' (names differing only by leading zeros tie)' if ties else '', a[:8], b[:8]),
                                    {'names': lst, 'names_reordered': lst2, 'result_a': a, 'result_b': b})
@@ -602,6 +611,22 @@ def search_exports(ctx, exp_res, textdir, specs):
                                {'design': spec, 'config': list(errs[0][0])})
             continue
         fps = {r['fp'] for _, r in runs}
+        if len(fps) != 1 and spec['cls'] in ('blif', 'iscas'):
+            imp = 'input_from_blif' if spec['cls'] == 'blif' else 'input_from_iscas_bench'
+            byfp = collections.OrderedDict()
+            for cfg, r in runs:
+                byfp.setdefault(r['fp'], (cfg, r))
+            (ca, ra), (cb, rb) = list(byfp.values())[:2]
+            ctx.spec_violation('nondeterministic:%s' % imp,
+                               '%s builds structurally different blocks (wire names / nets) from one text under schedules '
+                               '%s and %s (%d distinct structures over %d configurations), so every export of the imported '
+                               'design differs' % (imp, list(ca), list(cb), len(byfp), len(runs)),
+                               {'design': spec, 'batch_prefix': BATCH_PREFIX.get(key, [spec]), 'seed': ctx.seed,
+                                'config_a': list(ca), 'config_b': list(cb),
+                                'names_only_in_a': sorted(set(ra['set_order']) - set(rb['set_order']))[:8],
+                                'names_only_in_b': sorted(set(rb['set_order']) - set(ra['set_order']))[:8],
+                                'verilog_sha_a': ra['sha']['output_to_verilog'], 'verilog_sha_b': rb['sha']['output_to_verilog']})
+            continue
         if len(fps) != 1:
             ctx.notes.append('design %s was not built identically under all schedules (generator issue)' % key)
             ctx.model_mismatch('harness: design %s differs structurally between schedules' % key, {'design': spec})
@@ -767,10 +792,10 @@ def run(ctx):
     t0 = time.time()
     tie_names(ctx)
     ctx.notes.append('tie_names %.1fs' % (time.time() - t0))
-    classes = ['plain', 'sani', 'zeros', 'both', 'memtie', 'samename']
-    specs = make_specs(ctx, 60 if quick else 240, 'e', classes)
+    classes = ['plain', 'sani', 'zeros', 'both', 'memtie', 'samename', 'case', 'blif', 'iscas', 'blif']
+    specs = make_specs(ctx, 70 if quick else 240, 'e', classes)
     configs = make_configs(ctx, 4 if quick else 8, [0, 2, 5] if quick else [0, 1, 3, 7])
-    exp_res, textdir = run_workers(ctx, 'export', specs, configs, batch=30 if quick else 60, tag='exp')
+    exp_res, textdir = run_workers(ctx, 'export', specs, configs, batch=35 if quick else 60, tag='exp')
     ctx.notes.append('export workers done at %.1fs' % (time.time() - t0))
     search_exports(ctx, exp_res, textdir, specs)
     ctx.notes.append('search_exports done at %.1fs' % (time.time() - t0))
